@@ -106,6 +106,16 @@ func isOptTy(ty types.Type) bool {
 	return isFlagsTy(ty) || namedIn(ty, "internal/jsonopts", "Struct", "CoderValues", "ArshalValues")
 }
 
+// optField: the identifier selects a field declared in internal/jsonopts or internal/jsonflags (also when promoted
+// through an embedded struct, e.g. encoderState.Indent).
+func optField(p *pkgInfo, id *ast.Ident) bool {
+	v, ok := p.info.Uses[id].(*types.Var)
+	if !ok || !v.IsField() || v.Pkg() == nil {
+		return false
+	}
+	return strings.HasSuffix(v.Pkg().Path(), "internal/jsonopts") || strings.HasSuffix(v.Pkg().Path(), "internal/jsonflags")
+}
+
 func constU64(p *pkgInfo, e ast.Expr) (uint64, bool) {
 	tv, ok := p.info.Types[e]
 	if !ok || tv.Value == nil {
@@ -154,18 +164,14 @@ func writeOf(p *pkgInfo, n ast.Node) (ops []string, args []uint64) {
 			case lt != nil && isStructTy(lt):
 				add("=Struct", 0)
 			default:
-				if sel, ok := l.(*ast.SelectorExpr); ok {
-					if xt := p.info.Types[sel.X].Type; xt != nil && isOptTy(xt) {
-						add("="+sel.Sel.Name, 0)
-					}
+				if sel, ok := l.(*ast.SelectorExpr); ok && optField(p, sel.Sel) {
+					add("="+sel.Sel.Name, 0)
 				}
 			}
 		}
 	case *ast.IncDecStmt:
-		if sel, ok := x.X.(*ast.SelectorExpr); ok {
-			if xt := p.info.Types[sel.X].Type; xt != nil && isOptTy(xt) {
-				add("="+sel.Sel.Name, 0)
-			}
+		if sel, ok := x.X.(*ast.SelectorExpr); ok && optField(p, sel.Sel) {
+			add("="+sel.Sel.Name, 0)
 		}
 	case *ast.UnaryExpr:
 		if x.Op == token.AND {
